@@ -100,6 +100,8 @@ func checkRoleTable(c *Ctx, rule, key, text string, got map[string]string, errs 
 
 func runC14(c *Ctx) {
 	wholeSliceToStream(c, c.P, "R4", "transports/obfs2:(*obfs2Conn).Write")
+	wholeSliceFromStream(c, c.P, "R4", "transports/obfs2:(*obfs2Conn).Read")
+	noBackgroundConnWrites(c, c.P, newConnIO(c.P), "R4", "transports/obfs2")
 	if !importing {
 		importObls(c, "C10", runC10, "X10", func(k string) bool { return containsAny(k, "transports/obfs2") })
 		importObls(c, "C12", runC12, "X12", func(k string) bool { return containsAny(k, "common/csrand") })
